@@ -95,6 +95,9 @@ def probe_opt(ctx, payload):
 
     c_attr = dict(case, cfg=dict(case["cfg"], tau=t_other, limit_sigma=(not lim)), call={})
     m_attr, teams_attr, kw_attr = build(c_attr)
+    from .c16 import _warm_up
+
+    _warm_up(m_attr)  # used before its settings change
     m_attr.tau = float(t)
     m_attr.limit_sigma = lim
     o_attr = observe(m_attr, "rate", teams_attr, **kw_attr)
